@@ -11,7 +11,7 @@ LEVEL = "exploration"
 RULE = (
     "explicit enumeration: every sequence of exactly N ops (quick 4, thorough 6; prefixes judged step by step) over "
     "{start, start(max'), advance(1), advance(3), set_progress(max), set_progress(-2), display, clear, finish, "
-    "tick 50ms, tick 200ms} for 8 configurations (max 0/3/10, ANSI/plain/section/quiet, min interval 0/0.1); the "
+    "tick 50ms, tick 200ms} for 9 configurations (max 0/3/10, ANSI/plain/ANSI section/plain section/quiet, min interval 0/0.1); the "
     "complete set of (max, step) pairs 1 <= max <= 200, 0 <= step <= max through set_progress; Hypothesis sequences "
     "up to 60 ops over max {0,1,3,10,50,200}, bar width 1..40, min interval {0,0.1,0.5}, default formats at every "
     "verbosity and 3 custom formats (one with a message placeholder, one two-line), messages of varying length "
@@ -94,9 +94,9 @@ class Run(object):
         pbmod.time = vclock.FakeTime(self.clock)
         self.stream = vclock.RecordingStream(self.clock)
         kind = cfg["out"]
-        fmt = PlainFormatter() if kind == "plain" else AnsiFormatter(forced=True)
+        fmt = PlainFormatter() if kind in ("plain", "plain-section") else AnsiFormatter(forced=True)
         out = Output(self.stream, fmt)
-        if kind == "section":
+        if kind in ("section", "plain-section"):
             out = out.section()
         out.set_verbosity(cfg.get("verbosity", 0))
         out.set_quiet(bool(cfg.get("quiet")))
@@ -133,7 +133,7 @@ def run_case(ctx, part, case, by_construction=False):
     cfg = case["cfg"]
     run = Run(cfg)
     pb = run.pb
-    plain = cfg["out"] == "plain"
+    plain = cfg["out"] in ("plain", "plain-section")  # a section of an output without ANSI support is a plain output
     quiet = bool(cfg.get("quiet"))
 
     def fail(clause, expected, observed, sig=None, exc=None):
@@ -327,6 +327,7 @@ ENUM_CFGS = [
     {"max": 10, "width": 8, "min": 0.1, "out": "plain", "format": None},
     {"max": 0, "width": 4, "min": 0, "out": "plain", "format": "F2"},
     {"max": 3, "width": 8, "min": 0.1, "out": "section", "format": None},
+    {"max": 3, "width": 6, "min": 0, "out": "plain-section", "format": None},
     {"max": 10, "width": 8, "min": 0, "out": "ansi", "format": None, "quiet": True},
     {"max": 3, "width": 3, "min": 0.1, "out": "ansi", "format": "F3"},
 ]
@@ -357,7 +358,7 @@ def random_case():
         "max": st.sampled_from([0, 1, 3, 10, 50, 200]),
         "width": st.integers(1, 40),
         "min": st.sampled_from([0, 0.1, 0.5]),
-        "out": st.sampled_from(["ansi", "ansi", "plain", "section"]),
+        "out": st.sampled_from(["ansi", "ansi", "plain", "section", "plain-section"]),
         "format": st.sampled_from([None, None, "F1", "F2"]),
         "quiet": st.integers(0, 9).map(lambda x: x == 0),
         "verbosity": st.sampled_from([0, 0, 1, 2, 4]),
